@@ -118,29 +118,13 @@ Proof.
 Qed.
 
 (* ---------- documents valid for the XSD (element structure) are in the code's grammar ---------- *)
-Definition xrel (c : option tag) (q1 q2 : nat) : Prop :=
-  match c with
-  | Some tag_gama_xml => q2 = 0 /\ (q1 = 0 \/ q1 = 1)
-  | Some (tag_coordinates | tag_height_differences | tag_vectors) => (q1 = 2 /\ q2 = 0) \/ (q1 = q2 /\ (q1 = 0 \/ q1 = 1))
-  | _ => q1 = q2
-  end.
-
+(* decided by a finite check over the regenerated content automata (GkfModel.checked_incl): the pairs of states the two
+   grammars reach together form a simulation *)
+Definition xsd_reach := reach_together tag all_tags xsd_grammar code_grammar.
+Lemma xsd_incl_ok : incl_ok tag all_tags xsd_grammar code_grammar xsd_reach = true.
+Proof. vm_compute. reflexivity. Qed.
 Theorem xsd_documents_are_in_the_code_grammar d : vdoc xsd_grammar d = true -> vdoc code_grammar d = true.
-Proof.
-  apply (vdoc_incl tag xsd_grammar code_grammar xrel).
-  - intro t. destruct t; simpl; auto.
-  - intros c q1 q2 t q1' R E.
-    destruct q1 as [|[|[|q1]]]; destruct c as [c|]; try destruct c; simpl in E; try discriminate;
-      destruct t; simpl in E; try discriminate; injection E as <-; simpl in R;
-      repeat match goal with H : _ /\ _ |- _ => destruct H | H : _ \/ _ |- _ => destruct H end; subst; try discriminate; try lia;
-      (eexists; split; [reflexivity | simpl; lia]).
-  - intros c q1 q2 R F.
-    destruct q1 as [|[|[|q1]]]; destruct c as [c|]; try destruct c; simpl in F; try discriminate; simpl in R;
-      repeat match goal with H : _ /\ _ |- _ => destruct H | H : _ \/ _ |- _ => destruct H end; subst; try discriminate; try lia;
-      reflexivity.
-  - intros c H. exact H.
-  - reflexivity.
-Qed.
+Proof. exact (checked_incl tag all_tags all_tags_complete xsd_grammar code_grammar xsd_reach xsd_incl_ok d). Qed.
 
 (* the code's tag-level grammar is strictly more liberal than the XSD (later stages may still refuse these) *)
 Example code_accepts_two_networks :
